@@ -151,6 +151,33 @@ def check_vector(ctx, rng, st, flags):
             fitcheck.check_fit3d(ctx, tr, flags, flux, err, base, wit, keyp='ref3d')
         ctx.event('reference-oracle')
 
+    # (0) the flags mean the same on a source object that carried other flags before: a live Source already fitted with `flags`
+    #     is re-flagged (one fitted point or one limit becomes unused / plot-only) and fitted again; the result must be
+    #     bit-identical to that of a fresh Source with the new flags and the same values
+    cand = [j for j in range(n) if flags[j] in (1, 4)] if nfit > (2 if mode == '2d' else 1) else []
+    cand += [j for j in range(n) if flags[j] in (2, 3)]
+    if cand and nontrivial:
+        j = int(cand[int(rng.integers(len(cand)))])
+        flags2 = flags.copy()
+        flags2[j] = int(rng.choice([0, 9]))
+        try:
+            live = gen.build_source('src', flags, flux, err)
+            fitter.fit(live)
+            live.valid = flags2.copy()
+            rl = by_name(fitter.fit(live))
+            rf = by_name(fit(flags2, flux, err))
+        except Exception as exc:
+            ctx.event('live-source-reflagged:refused')
+            rl = None
+        if rl is not None:
+            ctx.event('pair:live-source-reflagged')
+            for name, (a, s_, c, mf) in rf.items():
+                a2, s2, c2, mf2 = rl[name]
+                if not (same_f(a, a2) and same_f(s_, s2) and same_f(c, c2)):
+                    ctx.violation('reflagged-live-source-differs', 'a source object whose flags were re-assigned is not fitted like a fresh source with those flags',
+                                  dict(wit, new_flags=flags2, model=name, fresh=(a, s_, c), live=(a2, s2, c2)))
+                    break
+
     # (i) ignored slots carry hostile values: bit-identical outputs
     ign = np.where((flags == 0) | (flags == 9))[0]
     if ign.size:
@@ -326,7 +353,7 @@ def run(ctx):
                'limits carry positive finite fluxes (quantifier of C01)',
                '3-D mode: penalties are decided by the numeric reference of C02 (the penalty can move the best distance)')
     ctx.require_events('fit:base', 'pair:ignored-hostile', 'pair:band-removed', 'pair:limit-vs-flag0',
-                       'pair:confidence0-vs-flag0', 'pair:flag1-as-flag4', 'reference-oracle')
+                       'pair:confidence0-vs-flag0', 'pair:flag1-as-flag4', 'reference-oracle', 'pair:live-source-reflagged')
     ctx.require_regimes('limit-violated:c=1', 'limit-violated:0<c<1', 'limit-satisfied', 'n=1', 'n=4')
     sets = [Setup(ctx, rng, '2d'), Setup(ctx, rng, '3d')]
     vs = vectors(ctx)
